@@ -6,6 +6,7 @@ import FormulaicVerif.Model.ScaleEntry
 import FormulaicVerif.Model.PolyEntry
 import FormulaicVerif.Model.PatsyCompat
 import FormulaicVerif.Model.Preloaded
+import FormulaicVerif.Model.TransformKey
 import FormulaicVerif.Gen.Names
 /-! Engine for C13: runs `Model.ScaleEntry.call` (argument binding, sparse dispatch, then
 `Model.Scale.run`), `Model.PolyEntry.call` (binding, then `Model.Poly.run`), `Model.Elementwise.lookup/exactAt`,
@@ -217,10 +218,34 @@ def treatmentOp (j : Json) : Json :=
   | .ok ns => Json.mkObj [("names", jlist (ns.map labelJ))]
   | .error _ => jerr "ValueError"
 
+/-! ### the key of the transform state -/
+
+/-- `Model.TransformKey.stateKey` for one call node.  CPython's parameters arrive as data: `ident` = the
+names (here: the column's name, when so) that `str.isidentifier` accepts and NFKC leaves alone;
+`wordchars` = the non-ASCII characters of the texts that `re` counts as `\w`. -/
+def keyOp (j : Json) (env : List String) : Json :=
+  let identOK := (strs j "ident").map String.toList
+  let extra := (jstr j "wordchars").toList
+  let py : TransformKey.Py :=
+    { ident := fun s => identOK.contains s
+      isSpace := Char.isWhitespace
+      word := fun c => PyAlias.asciiWord c || extra.contains c }
+  match TransformKey.stateKey py (env.map String.toList) (jstr j "expr").toList (jstr j "name").toList
+      (jstr j "pre").toList (jstr j "post").toList with
+  | none => jerr "unmodelled"
+  | some (key, a) => Json.mkObj [("key", Json.str (String.ofList key)), ("standin", Json.str (String.ofList a))]
+
+/-- the optional part `keyreq` of a `scale` / `poly` request (state kept by the library): the key of the
+transform state in each of the environments `envs` (one per data set of the history) -/
+def withKeys (j : Json) (fields : List (String × Json)) : Json :=
+  match j.getObjVal? "keyreq" with
+  | .ok k => Json.mkObj (fields ++ [("keys", jlist ((jarr k "envs").map fun e => keyOp k ((asArr e).map asStr)))])
+  | .error _ => Json.mkObj fields
+
 def handle (j : Json) : Json :=
   match jstr j "op" with
-  | "scale" => Json.mkObj [("calls", jlist (scaleCalls (scaleStateOf (jval j "state")) (jarr j "calls")))]
-  | "poly" => Json.mkObj [("calls", jlist (polyCalls (polyStateOf (jval j "state")) (jarr j "calls")))]
+  | "scale" => withKeys j [("calls", jlist (scaleCalls (scaleStateOf (jval j "state")) (jarr j "calls")))]
+  | "poly" => withKeys j [("calls", jlist (polyCalls (polyStateOf (jval j "state")) (jarr j "calls")))]
   | "elem" => elem j
   | "names" => names
   | "Q" => qOp j
